@@ -42,6 +42,11 @@ def gen_values(rng, n, pool):
             if len(vals) == n:
                 break
         return vals
+    if pool == "subsets":
+        # names as the library itself manufactures them for determinised automata: ';'-joined sorted subsets
+        cands = ["0", "1", "2", "0;1", "0;2", "1;2", "0;1;2"]
+        rng.shuffle(cands)
+        return cands[:n]
     raise ValueError(pool)
 
 
